@@ -16,6 +16,7 @@ func init() {
 }
 
 func runC04(c *Ctx) {
+	runC04NodeLister(c)
 	p, fx := c.P, c.Fx
 	const pkgFw = "pkg/scheduler/framework"
 	const pkgCommon = "pkg/scheduler/actions/common"
@@ -845,3 +846,65 @@ func factNilTerm(f Fact, isNil bool, pred func(*Term) bool) bool {
 	return pred(x)
 }
 
+
+// C04-O8 (PROV): the upstream pre-filters see every node of the snapshot. InterPodAffinity's PreFilter counts the
+// existing pods that match the incoming pod's own required (anti-)affinity terms over the node list it is given;
+// pods keep running on cordoned, NotReady or pressured nodes, so that list must not be narrowed to schedulable nodes
+// (whether a node can HOST the pod is decided later, per node). Session.GetNodes hands on what the snapshot lister
+// returns — it does not build a filtered copy — and the pre-filter adapter passes GetNodes() on unchanged.
+func runC04NodeLister(c *Ctx) {
+	p := c.P
+	fn := c.Anchor("O8", pkgFramework, "Session", "GetNodes")
+	if fn == nil {
+		return
+	}
+	n := 0
+	for _, b := range fn.Blocks {
+		ret, ok := b.Instrs[len(b.Instrs)-1].(*ssa.Return)
+		if !ok || len(ret.Results) != 1 {
+			continue
+		}
+		if k, isK := ret.Results[0].(*ssa.Const); isK && k.IsNil() {
+			continue
+		}
+		n++
+		okAll, why := true, ""
+		for _, o := range p.origins(ret.Results[0], 4) {
+			ex, isEx := o.(*ssa.Extract)
+			if isEx {
+				if call, isCall := ex.Tuple.(*ssa.Call); isCall && call.Call.IsInvoke() && call.Call.Method.Name() == "List" {
+					continue
+				}
+			}
+			if k, isK := o.(*ssa.Const); isK && k.IsNil() {
+				continue
+			}
+			okAll, why = false, trunc(termOf(o).String(), 100)
+		}
+		c.Check(okAll, "O8", "PROV", funcKey(fn)+": the node list for the pre-filters is the snapshot lister's full list", instrPos(ret), "SnapshotSharedLister().List()",
+			"Session.GetNodes returns a list it built itself ("+why+") instead of the snapshot lister's: if it leaves out nodes that cannot host new pods (cordoned, NotReady) the inter-pod (anti-)affinity pre-filter no longer counts the pods still running there, and a pod is bound into a topology domain its own required anti-affinity forbids")
+	}
+	c.Floor("O8", "PROV node-list returns", n, 1)
+	// the adapter hands the list on unchanged
+	np := 0
+	for _, f := range p.FuncsIn("pkg/scheduler/k8s_internal") {
+		if isTestdataOrMock(f) {
+			continue
+		}
+		for _, in := range instrsIn(f, func(in ssa.Instruction) bool {
+			cc, ok := in.(ssa.CallInstruction)
+			return ok && cc.Common().IsInvoke() && cc.Common().Method.Name() == "PreFilter"
+		}) {
+			args := in.(ssa.CallInstruction).Common().Args
+			if len(args) == 0 {
+				continue
+			}
+			np++
+			last := args[len(args)-1]
+			t := termOf(last)
+			c.Check(t.Op == "call" && strings.Contains(t.String(), "GetNodes"), "O8", "PROV", funcKey(f)+": the upstream PreFilter receives GetNodes() unchanged", instrPos(in), trunc(t.String(), 100),
+				"the upstream PreFilter is not handed the session's node list as it is: "+trunc(t.String(), 100))
+		}
+	}
+	c.Floor("O8", "PROV upstream PreFilter calls", np, 1)
+}
